@@ -362,7 +362,8 @@ def _add_geom_pair(
   type1 = geom_type[geom1]
   type2 = geom_type[geom2]
 
-  if type1 > type2:
+  # order by geom type, then by geom id (the sweep-and-prune broadphase hands over pairs in sort order)
+  if type1 > type2 or (type1 == type2 and geom1 > geom2):
     pair = wp.vec2i(geom2, geom1)
   else:
     pair = wp.vec2i(geom1, geom2)
